@@ -1,0 +1,13 @@
+// Copyright The gittuf Authors
+// SPDX-License-Identifier: Apache-2.0
+
+//go:build !verif
+
+package set
+
+import "cmp"
+
+// verifOrder is the identity outside verification builds.
+func verifOrder[T cmp.Ordered](items []T) []T {
+	return items
+}
